@@ -511,8 +511,29 @@ int _vnadata_load_npd(vnadata_internal_t *vdip, FILE *fp, const char *filename)
 			FIELD(&nss, 0));
 		goto out;
 	    }
-	    if (vnadata_set_format(vdp, FIELD(&nss, 1)) == -1) {
-		goto out;
+	    {
+		/*
+		 * A bad parameter list is an error in the file, not a
+		 * usage error of the caller: validate it silently and
+		 * report it as a syntax error.
+		 */
+		vnaerr_error_fn_t *error_fn = vdip->vdi_error_fn;
+		int rv;
+
+		vdip->vdi_error_fn = NULL;
+		rv = vnadata_set_format(vdp, FIELD(&nss, 1));
+		vdip->vdi_error_fn = error_fn;
+		if (rv == -1) {
+		    if (errno == EINVAL) {
+			_vnadata_error(vdip, VNAERR_SYNTAX,
+				"%s (line %d) error: invalid parameter list: %s",
+				nss.nss_filename, nss.nss_line, FIELD(&nss, 1));
+		    } else {
+			_vnadata_error(vdip, VNAERR_SYSTEM,
+				"malloc: %s", strerror(errno));
+		    }
+		    goto out;
+		}
 	    }
 	    parameter_line = nss.nss_line;
 	    if (scan_line(&nss) == -1) {
